@@ -377,7 +377,7 @@ theorem uniqueAll_legal (cs : List Name) (seen : Seen) (h : ∀ c ∈ cs, legalN
 /-! ### the loop of `_build_production_names` in closed form -/
 
 /-- the glyphs that get a new name, in glyph order -/
-def cov (i : Input) (order : List Name) : List Name := order.filter (inGs i.glyphSet)
+def cov (i : Input) (order : List Name) : List Name := order.filter (renames i)
 
 /-- the loop = give the candidates of the covered glyphs to `_unique_name` in order and record the
     results with successive dict assignments -/
@@ -389,11 +389,11 @@ theorem buildLoop_eq (i : Input) (order : List Name) (seen : Seen) (rm : List (N
   | nil => rfl
   | cons n order ih =>
     unfold buildLoop
-    by_cases h : inGs i.glyphSet n = true
+    by_cases h : renames i n = true
     · simp only [h, Bool.not_true, Bool.false_eq_true, if_false, cov, filter_cons_of_pos, map_cons,
         uniqueAll, zip_cons_cons, foldl_cons]
       exact ih _ _
-    · have h' : inGs i.glyphSet n = false := by simpa using h
+    · have h' : renames i n = false := by simpa using h
       simp only [h', Bool.not_false, if_true, cov, filter_cons, Bool.false_eq_true, if_false]
       exact ih _ _
 
@@ -555,7 +555,7 @@ theorem C11_renamed (i : Input) (h : i.order.Nodup) : holdsRenamed i (finalOrder
   · rw [all_eq_true]
     intro p hp
     have hp2 : p.2 = applyMap (buildProductionNames i) p.1 := mem_zip_map_self _ _ _ hp
-    by_cases hg : inGs i.glyphSet p.1 = true
+    by_cases hg : renames i p.1 = true
     · simp [hg]
     · have hnc : p.1 ∉ cov i i.order := by
         intro hin; exact hg (mem_filter.mp hin).2
@@ -596,10 +596,10 @@ theorem nodup_map_inj (f : Name → Name) (l : List Name) (h : (l.map f).Nodup) 
 /-- what the renaming does to one glyph of the font: an unsourced glyph keeps its name, which is
     reserved; a sourced glyph gets one of the names given out, none of which is reserved -/
 theorem applyMap_cases (i : Input) (h : i.order.Nodup) (a : Name) (ha : a ∈ i.order) :
-    (inGs i.glyphSet a = false ∧ applyMap (buildProductionNames i) a = a ∧ a ∈ keys (seenInit i)) ∨
-    (inGs i.glyphSet a = true ∧ a ∈ cov i i.order ∧
+    (renames i a = false ∧ applyMap (buildProductionNames i) a = a ∧ a ∈ keys (seenInit i)) ∨
+    (renames i a = true ∧ a ∈ cov i i.order ∧
       applyMap (buildProductionNames i) a ∈ uniqueAll ((cov i i.order).map (validName i)) (seenInit i)) := by
-  by_cases hg : inGs i.glyphSet a = true
+  by_cases hg : renames i a = true
   · right
     have hc : a ∈ cov i i.order := mem_filter.mpr ⟨ha, hg⟩
     refine ⟨hg, hc, ?_⟩
@@ -610,7 +610,7 @@ theorem applyMap_cases (i : Input) (h : i.order.Nodup) (a : Name) (ha : a ∈ i.
     rw [buildProductionNames_eq i h]
     exact mem_map.mpr ⟨a, hc, rfl⟩
   · left
-    have hg' : inGs i.glyphSet a = false := by simpa using hg
+    have hg' : renames i a = false := by simpa using hg
     have hnc : a ∉ cov i i.order := fun hin => hg (mem_filter.mp hin).2
     refine ⟨hg', ?_, ?_⟩
     · unfold applyMap
@@ -651,6 +651,40 @@ theorem C11_distinct (i : Input) (h : i.order.Nodup) : holdsDistinct (finalOrder
     intro a b ha hb hne e
     exact hne (C11_perm_injective i h a ha b hb e)
   exact decide_eq_true hnd
+
+/-- **C11_notdef_kept**: for ANY glyph order with distinct names, ANY glyph set and ANY
+    `public.postscriptNames` map (including one with an entry for '.notdef'), the glyph called '.notdef' in the
+    source order is still called '.notdef' afterwards, at the same index. -/
+theorem C11_notdef_kept (i : Input) (h : i.order.Nodup) (k : Nat) (hk : i.order[k]? = some notdef) :
+    (finalOrder i)[k]? = some notdef := by
+  have hmem : notdef ∈ i.order := mem_of_getElem? hk
+  have hr : renames i notdef = false := by simp [renames]
+  rcases applyMap_cases i h notdef hmem with ⟨_, e, _⟩ | ⟨ht, _, _⟩
+  · simp [finalOrder, hk, e]
+  · rw [hr] at ht; cases ht
+
+/-- …and nobody else gets that name: a glyph whose production name would be '.notdef' receives a suffixed one -/
+theorem C11_notdef_unique (i : Input) (h : i.order.Nodup) (hmem : notdef ∈ i.order) (a : Name) (ha : a ∈ i.order)
+    (e : applyMap (buildProductionNames i) a = notdef) : a = notdef := by
+  have hr : renames i notdef = false := by simp [renames]
+  have e0 : applyMap (buildProductionNames i) notdef = notdef := by
+    rcases applyMap_cases i h notdef hmem with ⟨_, e, _⟩ | ⟨ht, _, _⟩
+    · exact e
+    · rw [hr] at ht; cases ht
+  exact C11_perm_injective i h a ha notdef hmem (by rw [e, e0])
+
+/-- the function as it was BEFORE '.notdef' was exempted (`buildProductionNamesOldNotdef`) did not have this
+    property: `public.postscriptNames = {'.notdef': 'nd'}` renamed the first glyph, after which fontTools cannot
+    write a 'CFF ' table (`assert charset[0] == ".notdef"`); the current function keeps the name, and gives a glyph
+    that asks for '.notdef' the name '.notdef.1'. -/
+theorem C11_old_notdef_renamed :
+    ∃ i : Input, i.order.Nodup ∧ (finalOrderOldNotdef i).head? ≠ some notdef ∧
+      holdsRenamed i (finalOrderOldNotdef i) = false ∧
+      finalOrder i = [".notdef".toList, ".notdef.1".toList, "b".toList] :=
+  ⟨{ order := [".notdef".toList, "a".toList, "b".toList],
+     glyphSet := [(".notdef".toList, none), ("a".toList, some 0x61), ("b".toList, none)],
+     psNames := some [(".notdef".toList, "nd".toList), ("a".toList, ".notdef".toList)] },
+   by decide, by decide, by decide, by decide⟩
 
 /-- the OLD function (`seen = {}`) did not have this property: a glyph that is not in the glyph set
     kept its name without being recorded, so a renamed glyph could take the same name (variable-font
